@@ -9,7 +9,7 @@ from . import c01
 from . import common as cm
 from .c01 import A, D, R, T
 
-SITES = {"P": (10, 1), "Q": (11, 2), "T": (12, 3)}
+SITES = {"P": (10, 1), "Q": (11, 2), "T": (12, 3)}  # grid, site of every labware for EVO script commands
 
 
 def EA(lw, wells, tips, v, **kw):
@@ -79,6 +79,10 @@ def failing_W3():
         D("Q", ["A01", "C01"], [30, 7.5]),
         D("P", ["A01", "B01", "A01"], [7.5, 7.5, 7.5]),
         D("T", ["A01", "B01"], 200),
+        # Q was initialised from integers: three fractional dispenses that only together exceed the limit
+        D("Q", ["C01", "C01", "C01"], 1.75),
+        T("P", ["A01", "B01", "A02"], "Q", ["C01", "C01", "C01"], [1.75, 1.75, 1.75]),
+        D("Q", ["A02"] * 6, 3.5),
         R("T", 1, "Q", ["A01", "B01", "B02"], 7.5),
         R("T", 0, "Q", ["A01", "C01"], 7.5),
         R("T", 0, "Q", ["A01", "B01", "A02", "B02", "C02"], 30),
@@ -90,6 +94,10 @@ def failing_W3():
 
 def evo_events():
     return [
+        # tips given in descending order with individual volumes: must not be emitted with swapped volumes
+        EA("Q", ["B01", "C01"], [2, 1], [7.5, 30]),
+        EA("P", ["A01", "B01"], [3, 1], [70.0, 7.5]),
+        ED("Q", ["A01", "C01"], [4, 2], [30, 2.5]),
         EA("P", ["A01", "B01"], [1, 2], [30, 7.5]),
         EA("P", ["A01", "B01"], [1, 2], 95.0),
         EA("P", ["A01", "B01"], [1, 2], [30, 70.0]),
